@@ -17,6 +17,7 @@ import (
 	"verif/harness/internal/drv"
 	"verif/harness/internal/dvc"
 	"verif/harness/internal/labelmodel"
+	"verif/harness/internal/lmwire"
 )
 
 func main() { drv.Main("C08", "exploration", run) }
@@ -246,6 +247,49 @@ func (in *inst) mutate(v string) (bool, error) {
 	}
 }
 
+// ackProbe documents why settle() needs more than the instance's own flags: right after POST raw is acknowledged
+// the instance reports idle while labelmap goroutines still apply the write.  Observation only (the property has no
+// idle clause); the counts go to the evidence.
+func ackProbe(c *drv.Ctx, w *drv.Worker, seed int64) error {
+	r := rand.New(rand.NewSource(seed))
+	cl := &dvc.Client{W: w}
+	h, err := dvc.NewHist(cl, r, "c08ack")
+	if err != nil {
+		return err
+	}
+	g := &labelmodel.Geom{BS: 32, Org: [3]int{0, 0, 0}, NB: [3]int{2, 2, 4}}
+	in := &inst{c: c, w: w, cl: cl, h: h, r: r, tag: "ack", name: "segack", g: g, bs: [3]int{32, 32, 32},
+		states: map[string]*labelmodel.State{}, ever: map[uint64]bool{}, resv: map[uint64]bool{}, local: map[string]uint64{},
+		lastOp: map[string]string{}, dirty: map[string]int{}, entries: map[uint64]map[string]bool{}, taint: map[string]string{}}
+	if err := cl.NewInstance(h.Root, "labelmap", in.name, map[string]string{"BlockSize": "32,32,32"}); err != nil {
+		return err
+	}
+	st := labelmodel.New(g)
+	for z := 0; z < 4; z++ {
+		size := [3]int{64, 64, 32}
+		off := [3]int{0, 0, z * 32}
+		data := in.genBox(st, size, "fine", 0)
+		var out struct {
+			Status    int    `json:"status"`
+			IdleFlags bool   `json:"idle_flags"`
+			Running   string `json:"running"`
+		}
+		if err := w.API("c08.ackprobe", map[string]interface{}{"uuid": h.Root, "name": in.name, "method": "POST",
+			"url": in.url(h.Root, "raw/0_1_2/"+coordStr(size)+"/"+coordStr(off)), "body": lmwire.EncodeVolume(data)}, &out); err != nil {
+			return err
+		}
+		c.Count("ackprobe_post_raw", 1)
+		if out.Status == 200 && out.IdleFlags && out.Running != "" {
+			c.Count("ackprobe_acknowledged_and_reporting_idle_while_labelmap_goroutines_run", 1)
+			c.Seen("ackprobe_functions_running_after_ack", out.Running)
+		}
+		if err := in.settle(); err != nil {
+			return err
+		}
+	}
+	return nil
+}
+
 func run(c *drv.Ctx) error {
 	c.Rule("a sequence = one labelmap instance (32^3 blocks; grids of 2x2x2..3x3x3 blocks, some at negative block coordinates) driven by a random legal " +
 		"interleaving of POST raw / POST blocks ingest, offline ingest (POST blocks?noindexing=true + POST indices + POST mappings), POST raw?mutate=true, merge, cleave, split-supervoxel (single voxel, all but one, all, half-spaces, alternating rows, random, partly outside), " +
@@ -326,6 +370,13 @@ func run(c *drv.Ctx) error {
 			if err != nil {
 				errs <- err
 				return
+			}
+			if i == 0 {
+				if err := ackProbe(c, w, negSeeds[0]^0x5a5a); err != nil {
+					errs <- fmt.Errorf("ack probe: %v", err)
+					w.Kill()
+					return
+				}
 			}
 			err = sequence(c, w, negSeeds[i], i, "cache=off", nops, true)
 			if err != nil && w.Dead() {
